@@ -32,7 +32,8 @@ COMPONENTS = {"real": ["py7zr extractor", "kernel tmpfs (path resolution, symlin
               "generator": ["ref7z.writer"]}
 
 COMPS = ["a", "b", "..", ".", "", "${JAILNAME}"]
-TARGETS = [".", "..", "../..", "a", "a/..", "b", "../b", "${JAIL}", "${JAIL}/a", "${OUT}", "${OUT}/x", "/", "../${JAILNAME}", "a/../..", "../../.."]
+TARGETS = [".", "..", "../..", "a", "a/..", "b", "../b", "${JAIL}", "${JAIL}/a", "${OUT}", "${OUT}/x", "/", "../${JAILNAME}", "a/../..", "../../..",
+           "../${JAILNAME}-old", "${JAIL}-old", "../${JAILNAME}x", "${JAIL}x"]
 
 
 def plan(tier):
@@ -93,6 +94,19 @@ def gen_case(rng: Rng, i: int, tier: str):
         if r.chance(0.2):
             r.shuffle(sc)
         entries = sc + (entries[:1] if r.chance(0.3) else [])
+    elif r.chance(0.2):
+        # directed: late binding - a link text that passes through a component which does not exist yet (so it resolves,
+        # lexically and physically, to something inside), the component then appears as a link that moves the resolution
+        # outside, then the first link is written through.  The outside names include neighbours that share the
+        # destination's name as a prefix.
+        x = r.pick(["q", "b", "m"])
+        name = r.pick(["${JAILNAME}-old", "${JAILNAME}x", "x", "b", "${JAILNAME}-old/evil", "a"])
+        lb = [{"name": "c", "kind": "symlink", "target": x + "/../" + name},
+              {"name": x, "kind": "symlink", "target": r.pick([".", "./.", "a/..", ".."])},
+              {"name": r.pick(["c/evil", "c", "c/sub/evil", "c/evil"]), "kind": r.pick(["file", "file", "dir"]), "data": r.pick(["payload-l", ""])}]
+        if r.chance(0.15):
+            r.shuffle(lb)
+        entries = lb + (entries[:1] if r.chance(0.3) else [])
     elif r.chance(0.25):
         # directed: a directory reached THROUGH links is used, then a link on the way is re-pointed by a member with another
         # spelling of the same output path, then the directory is used again: anything remembered about it is stale
@@ -161,6 +175,12 @@ def run_case(case):
     with open(os.path.join(scratch, "moat1", "a"), "w") as f:
         f.write("bystander")
     os.mkdir(os.path.join(scratch, "a"))
+    # neighbours whose names merely START with the destination's name: inside only for a character-wise prefix test
+    os.mkdir(os.path.join(moat2, "jail-old"))
+    with open(os.path.join(moat2, "jail-old", "evil"), "w") as f:
+        f.write("bystander")
+    with open(os.path.join(moat2, "jailx"), "w") as f:
+        f.write("bystander")
     if case["prepop"]:
         os.mkdir(os.path.join(jail, "a"))
         with open(os.path.join(jail, "b"), "w") as f:
